@@ -116,15 +116,46 @@ def record_dec_cases(rng, n, walks_bias=0.4):
             ck = rng.choice(["none", "none", "right", "off"])
             chk = []
             if ck != "none" and 4 not in s:
-                rv = impl.call(dsw.set_vt, st, rng.choice([1, 2, 3, 5]))
+                nchk = rng.choice([1, 2, 3, 5, 33, 40])
+                rv = impl.call(dsw.set_vt, st, nchk)
                 if rv["out"] == "ok":
                     chk = impl.undna(rv["value"])
                     if ck == "off":
                         chk[0] = (chk[0] + 1) % 4
+                else:
+                    chk = [rng.randrange(4) for _ in range(nchk)]       # any string may be supplied as a check
             d = cf.run_decode(acc, start, st, w, mode, impl.dna(chk) if chk else None, tbl)
             cases.append({"kind": "dec", "g": g, "tbl": t, "start": start, "dna": s, "mode": mode, "w": w, "chk": chk,
                           "out": d["out"], "bits": d["bits"]})
+        if i % 2 == 1 and k <= 3:
+            inplace_history(rng, graphs, cases, k, live, acc)
     return graphs, tables, cases
+
+
+def inplace_history(rng, graphs, cases, k, live, acc):
+    """The same accessor OBJECT before and after a documented in-place edit (arc removal): a strand through the arc that goes
+    away is decoded before (accepted) and after (must be rejected) the edit."""
+    probe = impl.call(dsw.remove_nasty_arc, acc.copy(), dsw.accessor_to_latter_map(acc.copy()), _alarm=60)
+    if probe["out"] != "ok":
+        return
+    former, latter = int(probe["value"][2][0]), int(probe["value"][2][1])
+    s, v = [latter % 4], latter
+    for _ in range(rng.choice([3, 10, 30])):
+        if not live[v]:
+            break
+        a = rng.choice(live[v])
+        s.append(a)
+        v = (4 * v + a) % len(live)
+    gi = graphs.index(live) + 1
+    w = 4 * len(s) + 8
+    d = cf.run_decode(acc, former, impl.dna(s), w, "normal", None, None)
+    cases.append({"kind": "dec", "g": gi, "tbl": 0, "start": former, "dna": s, "mode": "normal", "w": w, "chk": [], "out": d["out"], "bits": d["bits"]})
+    r = impl.call(dsw.remove_nasty_arc, acc, dsw.accessor_to_latter_map(acc), _alarm=60)
+    if r["out"] != "ok":
+        return
+    graphs.append(impl.live_of(acc))
+    d = cf.run_decode(acc, former, impl.dna(s), w, "normal", None, None)
+    cases.append({"kind": "dec", "g": len(graphs), "tbl": 0, "start": former, "dna": s, "mode": "normal", "w": w, "chk": [], "out": d["out"], "bits": d["bits"]})
 
 
 def flow_b(ctx, mine, n, salt, walks_bias=0.4):
